@@ -423,6 +423,10 @@ func (b *Buffer) alloc(call goja.FunctionCall) goja.Value {
 }
 
 func (b *Buffer) proto_toString(call goja.FunctionCall) goja.Value {
+	if call.This.ExportType() != reflectTypeBytes {
+		// Converting an arbitrary receiver to bytes may need its string form, i.e. this very method.
+		panic(errors.NewTypeError(b.r, errors.ErrCodeInvalidThis, "Value of \"this\" must be of type Buffer or Uint8Array"))
+	}
 	bb := Bytes(b.r, call.This)
 	codec := b.getStringCodec(call.Argument(0))
 	start := goutil.CoercedIntegerArgument(call, 1, 0, 0)
